@@ -317,6 +317,11 @@ def profile4(r):
         plot(4)
     """
 
+    # exact values of the coefficients published (rounded) as 14.811667 and
+    # 196.30083, from the source polynomial for r > 0.7
+    c0 = 377.78/3 - 111.115
+    c2 = 755.56/3 - 55.5525
+
     def source_left(x):
         """Profile4 source x <= 0.7.
 
@@ -338,7 +343,7 @@ def profile4(r):
 
         a7 = a(0.7, x)
         a1 = a(1, x)
-        return 22.68862*a7 - 14.811667*a1 + (217.557*a7 - 196.30083*a1)*x**2 +\
+        return 22.68862*a7 - c0*a1 + (217.557*a7 - c2*a1)*x**2 +\
                +155.56*x**2*np.log((1 + a1)/(0.7 + a7)) +\
                x**4*(55.5525*np.log((1 + a1)/x) - 59.49*np.log((0.7 + a7)/x))
 
@@ -348,7 +353,7 @@ def profile4(r):
         """
 
         a1 = a(1, x)
-        return -14.811667*a1 - 196.30083*a1*x**2 +\
+        return -c0*a1 - c2*a1*x**2 +\
                x**2*(155.56 + 55.5525*x**2)*np.log((1 + a1)/x)
 
     if np.any(r <= 0) or np.any(r > 1):
